@@ -161,8 +161,35 @@ func c25(c *engine.Ctx) {
 			}
 			for k := 0; k < 2; k++ {
 				cm := engine.Guard{If: iff, Branch: k == 0}.Cmp()
+				// the test may be a predicate of the engine applied to the counter
+				// (retriesExhausted(retries)) whose only return is the comparison of its
+				// parameter with e.maxRetries: read as that comparison (negated on the
+				// false edge)
+				if hc := engine.CallOf(cm.X); hc != nil {
+					if b, isB := engine.ConstBool(cm.Y); isB && (cm.Op == token.EQL || cm.Op == token.NEQ) {
+						if h := hc.Common().StaticCallee(); h != nil && len(h.Blocks) > 0 && h.Pkg == loopFn.Pkg {
+							if rets := engine.Returns(h); len(rets) == 1 && len(rets[0].Results) == 1 {
+								if raw, isBin := rets[0].Results[0].(*ssa.BinOp); isBin {
+									if in, isCmp := engine.CmpOf(raw); isCmp {
+										for _, ic := range []engine.Cmp{in, in.Swap()} {
+											arg := argOfParam(ic.X, hc)
+											if arg != nil && cell(arg) == counter && len(h.Params) > 0 && engine.Describe(ic.Y) == "p:"+engine.ParamName(h.Params[0])+".maxRetries" {
+												holds := (cm.Op == token.EQL) == b
+												op := ic.Op
+												if !holds {
+													op = engine.NegateOp(op)
+												}
+												cm = engine.Cmp{Op: op, X: arg, Y: ic.Y}
+											}
+										}
+									}
+								}
+							}
+						}
+					}
+				}
 				for _, cc := range []engine.Cmp{cm, cm.Swap()} {
-					if !isLimit(cc) {
+					if !(isLimit(cc) || (cell(cc.X) == counter && strings.HasSuffix(engine.Describe(cc.Y), ".maxRetries") && cc.Y.Parent() != loopFn)) {
 						continue
 					}
 					switch cc.Op {
